@@ -26,7 +26,7 @@ ASSUMPTIONS = [
 ]
 CASE_TIMEOUT = 300
 MANIFEST = {
-    "text": "Exploration, exhaustive on the small domains: every value pushed through the real encoder is decoded by the library's decoder and by a decoder written from the spec inside a post-condition monitor. Exhaustive: all 65536 F2Dot14 values, CFF/T1/T2 integers -70000..70000, all 255UShort, base-128 0..2^21 (thorough), all subsets of 12 point numbers, all delta sequences up to length 3/4 over the boundary alphabet; sampled elsewhere. Tests cannot settle this because they sample a handful of values per codec.",
+    "text": "Exploration, exhaustive on the small domains: every value pushed through the real encoder is decoded by the library's decoder and by a decoder written from the spec inside a post-condition monitor. Exhaustive: all 65536 F2Dot14 values, CFF/T1/T2 integers -70000..70000, all 255UShort, base-128 0..2^21 (thorough), all subsets of 12 point numbers, all delta sequences up to length 3/4 over the boundary alphabet; sampled elsewhere. Histories and process settings are part of the workload where a codec could depend on them: the same reals formatted at several precisions interleaved in one process, timestamps converted under several POSIX time zones, Type 1 fonts declaring every /lenIV (written from the spec) read and re-written in every container form and decoded by a spec-level reader. Tests cannot settle this because they sample a handful of values per codec.",
     "note": "Trusted base: vmon/oracle/codecs.py (spec-written decoders), Python's Fraction/struct. Domains are the documented ones (T2 integer encoder int16 only; reals to 8 significant digits; tags = printable ASCII with trailing spaces only).",
     "technique": "post-condition monitors on the real encoders; identity round trip plus spec-written decoder; exhaustive enumeration of small domains",
     "design_ref": "DESIGN.md §4 C15",
